@@ -97,11 +97,11 @@ def run(ctx: Ctx, rs: RuleSet, tier: str):
     st = g.stmt[n]
     if isinstance(st, ast.Return) and st.value is not None and any(
         isinstance(x, ast.Attribute) and x.attr == 'memo'
-        for x in ast.walk(st.value)):
+        for x in ast.walk(roles.deref(apply, st.value))):
       hit_rets.append((n, st))
   ok = bool(hit_rets)
   for n, st in hit_rets:
-    v = st.value
+    v = roles.deref(apply, st.value)
     if result_slot == 'whole':
       good = isinstance(v, ast.Subscript) and not isinstance(
           v.value, ast.Subscript)
